@@ -172,6 +172,7 @@ type Obs struct {
 	AuthzCalls     int
 	AuthzPrinc     any
 	AuthzPrincSet  bool
+	Audit          string   // set by a property's own middleware when what it was told twice about one request differs
 	AuthzSaw       string   // whatever else the authorizer read from its request (filled by the property's Decide function)
 	Consumers      []string // tags of consumers whose Consume ran
 	Producers      []string
